@@ -128,6 +128,11 @@ namespace bloch::update {
 
         // Returns false when the cache could not be written.
         bool saveCache(const UpdateCache& cache) {
+#ifdef BLOCH_VERIF
+            // verification hook: a cache file that can be read but not written
+            if (std::getenv("BLOCH_VERIF_CACHE_READONLY"))
+                return false;
+#endif
             const auto path = cacheFilePath();
             std::error_code ec;
             std::filesystem::create_directories(path.parent_path(), ec);
